@@ -598,7 +598,7 @@ theorem validated_no_internal_error (s : SchemaD) (hs : SchemaOk s) (doc : Doc) 
   intro op fuel cf cls
   unfold ValidDoc validDocB at hv
   simp only [Bool.and_eq_true] at hv
-  obtain ⟨⟨hops, hfr⟩, _⟩ := hv
+  obtain ⟨⟨⟨hops, hfr⟩, _⟩, _⟩ := hv
   unfold execute
   cases hgo : getOperation doc op with
   | none => simp
